@@ -473,3 +473,22 @@ func (w *World) AcksOf(id uint64) []Ack {
 	defer w.mu.Unlock()
 	return append([]Ack(nil), w.Acks[id]...)
 }
+
+// FakeSR is a stand-in source runner that only carries an upstream id.
+func FakeSR(id string) proto.SourceRunner { return fakeSR{id: id} }
+
+// ReadAll reads a whole file of the shared storage.
+func ReadAll(fs *storage.MemoryFilesystem, uri string) []byte {
+	f := fs.Open(uri)
+	var out []byte
+	buf := make([]byte, 8192)
+	var off int64
+	for {
+		n, err := f.ReadAt(buf, off)
+		out = append(out, buf[:n]...)
+		off += int64(n)
+		if err != nil || n == 0 {
+			return out
+		}
+	}
+}
